@@ -445,6 +445,7 @@ func (kv *simKV) call(kind int, key string, val []byte, exp uint64) (refstore.Ou
 		w.tr.recLocked("envmark", 12, int64(kv.in.idx), op)
 	}
 	w.tr.mu.Unlock()
+	w.fire(kv.in.idx, fmt.Sprintf("issue:%d", kind))
 
 	if p.pre > 0 {
 		time.Sleep(time.Duration(p.pre))
@@ -663,6 +664,10 @@ func (sw *simWatcher) pump() {
 		sw.sent++
 		h := mix(w.sc.Seed, int64(sw.in.idx), 77, sw.id, int64(n))
 		d := between(sw.plan.Delay[0], sw.plan.Delay[1], h)
+		if sw.plan.Pipe {
+			// a constant transit time: the entry is due d after it was produced (entries stay in order)
+			d = e.T + d - w.tr.now()
+		}
 		if d > 0 {
 			select {
 			case <-time.After(time.Duration(d)):
